@@ -563,6 +563,13 @@ def run(F, chk):
     chk.extra["membership_mirrors"] = npairs
     chk.floor(R7, 5)
 
+    # ---- R2.9 (= C05 on the same facts)
+    chk.share(F, "c05", ["R5.1", "R5.2", "R5.5"], "R2.9",
+              "the sort inside every default save renumbers exactly what the enumerators report, each reference once: a reference "
+              "reported twice (by GetChildRefs and GetPtrs), not at all, or only conditionally is re-pointed by saving, so the live "
+              "model and the next save differ")
+    chk.floor("R2.9", 600)
+
     chk.assumptions += ["member paths are compared canonically; distinct paths are assumed not to alias",
                         "whether FinalizeData is idempotent on values, and equality of query results in general, are not decided"]
     chk.extra["explanation"] = ("write-path effect analysis for every registered class: no write-then-mutate, census of write-mode "
